@@ -4,6 +4,7 @@ CONSTANTS
   MaxRec = 99
   MaxEp = 99
   FetchMax = 1
+  WideEvery = 0
   SlowTimeouts = TRUE
   ZombieSteals = TRUE
 POSTCONDITION Done
